@@ -72,6 +72,7 @@ PPub(w, p)    == [t |-> "pub", ch |-> w, p |-> p]
 PReplay(ms)   == [t |-> "replay", msgs |-> ms]                       \* set of <<w, p>>: order inside is C06's subject
 PResp(api, c) == [t |-> "resp", api |-> api, code |-> c]
 PLinkOK(n, w) == [t |-> "resp", api |-> "link", code |-> 200, name |-> n, ch |-> w]
+PHist(ms)     == [t |-> "hist", msgs |-> ms]                         \* emitter/history/ reply: set of <<w, p>>
 PStatus(w, who) == [t |-> "resp", api |-> "presence", code |-> 200, ev |-> "status", ch |-> w, who |-> who]
 PPres(ev, w, c, u) == [t |-> "pres", ev |-> ev, ch |-> w, who |-> c, user |-> u]
 
@@ -232,6 +233,15 @@ Presence(c, k, w, syn, status, chg, qos) ==
             IN  /\ held' = r.held /\ trie' = r.trie
                 /\ out'  = [Quiet EXCEPT ![c].s = <<IF status THEN PStatus(w, who) ELSE PResp("presence", 200)>> \o ack]
                 /\ UNCHANGED <<conn, user, will, links, store>>
+
+(* emitter/history/ {key, channel: "key/channel/?last=..&from=.."} (service/history): the last N stored matching
+   messages of the requester's broker, needs the load permission *)
+HistoryReq(c, k, w, syn, last, win, qos) ==
+    /\ conn[c] = "open"
+    /\ LET ack == IF qos > 0 THEN <<PPuback>> ELSE <<>>
+           e   == IF syn # "ok" THEN 400 ELSE IF ~Perm(k, "l") THEN 401 ELSE 0
+       IN  /\ out' = [Quiet EXCEPT ![c].s = <<IF e # 0 THEN PResp("history", e) ELSE PHist(History(Home[c], Ssid(w), last, win))>> \o ack]
+           /\ UNCHANGED svars
 
 (* Any ending: DISCONNECT, the socket closing (at a packet boundary or inside a packet), a malformed packet.
    Conn.Close: unsubscribe every counter (notifications), then the last will. *)
